@@ -63,3 +63,17 @@ def listToStr (l : List Nat) : String :=
   "[" ++ ",".intercalate (l.map toString) ++ "]"
 
 end RTA
+
+namespace RTA
+
+/-- insertion into a descending list -/
+def insertDesc (x : Nat) : List Nat → List Nat
+  | [] => [x]
+  | y :: ys => if x ≥ y then x :: y :: ys else y :: insertDesc x ys
+
+/-- descending sort (models `itertools::sorted(..).rev()`) -/
+def sortDesc : List Nat → List Nat
+  | [] => []
+  | x :: xs => insertDesc x (sortDesc xs)
+
+end RTA
